@@ -12,7 +12,7 @@ func init() {
 			"canonical form distinguishes nil/empty, follows pointers, validates headers",
 		}, commonAssume...),
 		Jobs: func(tier string) []runner.Job {
-			return []runner.Job{{Harness: "c02.types", Mode: "plain", Shards: 16}, {Harness: "c02.floats", Mode: "plain", Shards: 16}, {Harness: "c02.bytes", Mode: "plain", Shards: 16}, {Harness: "c02.lengths", Mode: "plain", Shards: 16}, {Harness: "c02.iface", Mode: "plain", Shards: 4}}
+			return []runner.Job{{Harness: "c02.types", Mode: "plain", Shards: 16}, {Harness: "c02.floats", Mode: "plain", Shards: 16}, {Harness: "c02.bytes", Mode: "plain", Shards: 16}, {Harness: "c02.lengths", Mode: "plain", Shards: 16}, {Harness: "c02.iface", Mode: "plain", Shards: 4}, {Harness: "c02.views", Mode: "plain", Shards: 4, GC: "on"}}
 		},
 	})
 }
